@@ -39,6 +39,7 @@ def c05(tier, seed):
 
 
 ENGINES = {
+    "arrmac": ({"C20"}, "generated arr!/box_arr! invocations with logging element expressions"),
     "zc": ({"C19"}, "zeroize visit counting and constant-default reach, run time + const items"),
     "hex": ({"C14"}, "LowerHex/UpperHex vs per-byte reference; built with and without faster-hex"),
     "cmpfmt": ({"C13"}, "comparison / hashing / Debug vs slice; recording hasher; map lookups"),
@@ -267,7 +268,32 @@ def c19(tier, seed):
             Run("zc", "miri", ["--maxn", "64"], shards=32, label="zc/miri(N<=64)")]
 
 
+def c20(tier, seed):
+    if tier == "quick":
+        return [Run("arrmac", "debug", ["--maxn", "4096"], shards=4), Run("arrmac", "miri", ["--maxn", "16"], shards=16, label="arrmac/miri(count<=16)")]
+    return [Run("arrmac", "debug", ["--maxn", "4096"], shards=8), Run("arrmac", "release", ["--maxn", "4096"], shards=8),
+            Run("arrmac", "miri", ["--maxn", "64"], shards=32, label="arrmac/miri(count<=64)")]
+
+
 SPECS = {
+    "C20": dict(
+        engine="arrmac",
+        technique="generated macro invocations with logging element expressions: evaluation-order recorder + type-level length reader + contents vs the values returned and vs the native literal; repeat forms count evaluations of x; const items evaluated by the compiler",
+        level="exploration",
+        level_text=("A generator writes arr![e0, ..., ek] and box_arr![...] invocations for EVERY element count 0..=64 and 100, 128, 255, 256 (with and "
+                    "without trailing comma, non-Copy Tok and Copy u32 elements), where each ei logs its index when evaluated: the log must be "
+                    "0..k once each in order, the length read from the result's type must be k, the contents the values returned (as for the "
+                    "native literal). Both repeat forms (type-level length; literal, arithmetic and braced-const expression lengths) over the "
+                    "length lattice (plus 1025..4096 for the type form) must give N copies with x evaluated exactly once, for arr! and box_arr! "
+                    "(Copy and Clone-only elements); const and static items built with arr! must equal their native literals."),
+        level_note="Trusted: the generator (gen/arrmac_gen.py) emits only forms the macro grammar defines; a parenthesised length is parsed as a type by macro_rules itself and is not generated.",
+        runs=c20,
+        min_cases=700,
+        exhaustive={"quick": True, "thorough": True},
+        rule="one case = (macro form, element type, element count or N); every count in the stated list; non-trivial = count > 0",
+        explanation="evaluation log, type-level length, contents",
+        assumptions=["element counts 0..=64, 100, 128, 255, 256; repeat lengths from the lattice"],
+    ),
     "C19": dict(
         engine="zc",
         technique="per-address visit counter inside the element's Zeroize impl + value read-back; constant default compared element-wise at run time AND for const items evaluated by the compiler; Miri for structurally built arrays",
